@@ -124,14 +124,15 @@ def run(ctx):
     cov["trusted_base"] = vlib.STD_TRUSTED + [
         "model scope (coq/Chain/Model.v): router -> splitter -> resolver assembly with memoised nodes, redirects (service/subset/datacenter), default subsets, subset existence, failover (service/subset/datacenters/targets, '*' key), external-SNI restrictions, protocol recording and gating, OverrideProtocol, detectCircularReferences, flattenAdjacentSplitterNodes (sorted node ids; the map order the ids are collected in is a parameter the result is proved independent of), removeUnusedNodes, and the write-time validation over every chain that reaches the written name through the link index",
         "modelled as opaque or ignored (oracle-only on the wide generator): namespaces/partitions (CE: always default), cluster peers, sameness groups, mesh-gateway modes, transparent proxy, load-balancer and header payloads, timeouts (only whether a resolver is 'default'), customization hash, envoy extensions, virtual IPs, protocol letter case",
-        "target IDs are the triple (service, subset, datacenter): Go's string ID is injective on names without dots (generated names have none)",
+        "target IDs are the triple (service, subset, datacenter): Go's string ID (structs.ChainID) is injective exactly on names without dots (C15_target_id_injective_partial / _refuted); cases with dotted names are oracle-only (generator dotted-names, known finding target-identity)",
         "split weights are exact integers in 1/100 %: Go multiplies in float32; the correspondence generator uses weights on which both agree (checked at harness start), three-deep chains are generated on every run, compiled 24x with shuffled insertion order and compared exactly",
         "write-time validation is modelled as test-compiling over the whole proposed entry set; the real store first fetches the related entries (readDiscoveryChainConfigEntriesTxn): agreement is checked on every store case, not proved",
         "detectCircularReferences is modelled as the recursion its explicit stack implements; a Go nil dereference / 'non-retained node' is the model's EInternal (proved unreachable)",
     ]
     assumptions = ["entry sets are maps keyed by (kind, name) (NoDup keys in C15_deterministic)", "names contain no dots",
                    "service-splitter entries have at least one split (enforced by Validate) in C15_paths_end_at_resolvers",
-                   "failover sections do not set both Datacenters and Targets (enforced by Validate) where the link index is used"]
+                   "written resolver entries do not set both Datacenters and Targets in a failover section (enforced by Validate) in C15_reachable_stores_valid",
+                   "evaluation context in the guard's datacenter with an override that keeps routers and splitters in C15_context_independence_partial (override tcp: refuted, known finding)"]
     if not ok:
         cov.update({"evaluations": 0, "distinct_nontrivial": 0, "rule": "proof stage failed", "samples": []})
         return ctx.finish(cov, assumptions)
@@ -219,7 +220,7 @@ def run(ctx):
     cov.update({
         "evaluations": total,
         "distinct_nontrivial": len(distinct),
-        "rule": "distinct (entry set, chain name, datacenter, override) tuples resp. distinct write sequences; each compile case is compiled 5x (24x for three-deep splitter chains: regression for 2e58eb8; the 'indirect' store cases are the regression for f9df4b1) with shuffled insertion order; every case goes through the direct oracle, the cases inside the modelled feature set are also evaluated in Coq",
+        "rule": "distinct (entry set, chain name, datacenter, override) tuples resp. distinct write sequences; each compile case is compiled 5x (24x for three-deep splitter chains: regression for 2e58eb8; the 'indirect' store cases are the regression for f9df4b1) with shuffled insertion order; every case goes through the direct oracle (compile cases: closure, paths, termination, determinism, cycles, target identity; store cases: unchanged on reject, cause of a reject, no chain broken by an accepted write, every stored chain also compiles in dc2 and under OverrideProtocol tcp/http/grpc), the cases inside the modelled feature set are also evaluated in Coq",
         "traces_validated_against_impl": len(coq_cases),
         "model_mismatches": len(mism),
         "oracle_failures": len(oracle_fail),
